@@ -39,6 +39,8 @@ def structures(tier):
         for proc in (None, 'name', 'pid', 'other'):
             sts.append({'kind': 'v3logs', 'tid': tidf, 'proc': proc})
     sts.append({'kind': 'v3events', 'nc': 1, 'ns': 1})
+    sts.append({'kind': 'v2', 'm': 2, 'tid': False, 'nc': 0, 'ns': 3})
+    sts.append({'kind': 'v2', 'm': 1, 'tid': False, 'nc': 1, 'ns': 3})
     for edit in ('append-class', 'remove-class', 'append-subclass', 'clear'):
         sts.append({'kind': 'edit', 'm': 2, 'edit': edit})
     return sts
@@ -91,6 +93,7 @@ def run_edit(ctx, st):
             p.filter_class.clear()
         second = list(p.kevents(make_stream(data)))
     except Exception as e:      # noqa
+        __import__('vxlib.symx.core', fromlist=['x']).proxy_rejected(e)
         ctx.check('C12/edit/no-error', False, '%s: %s' % (type(e).__name__, e)); ctx.reach(); return
     classes, subclasses = list(p.filter_class), list(p.filter_subclass)
     for tag, out, cl, sc in (('first', first, [c0], []), ('second', second, classes, subclasses)):
@@ -127,6 +130,7 @@ def run_v2(ctx, st):
     try:
         out = list(p.kevents(make_stream(data)))
     except Exception as e:      # noqa
+        __import__('vxlib.symx.core', fromlist=['x']).proxy_rejected(e)
         ctx.check('C12/v2/no-error', False, '%s: %s' % (type(e).__name__, e))
         ctx.reach()
         return
@@ -159,6 +163,7 @@ def run_v3(ctx, st):
         try:
             out = list(p.kevents(make_stream(data)))
         except Exception as e:      # noqa
+            __import__('vxlib.symx.core', fromlist=['x']).proxy_rejected(e)
             ctx.check('C12/v3/no-error', False, '%s: %s' % (type(e).__name__, e)); ctx.reach(); return
         ctx.check('C12/v3/no-log-in-events', not any(isinstance(e, OsLogEvent) for e in out))
         expected = [i for i in range(2) if bool(_spec_keep(specs[i], None, classes, subclasses))]
@@ -175,6 +180,7 @@ def run_v3(ctx, st):
     try:
         out = list(p.os_log_events(make_stream(data)))
     except Exception as e:      # noqa
+        __import__('vxlib.symx.core', fromlist=['x']).proxy_rejected(e)
         ctx.check('C12/v3/logs/no-error', False, '%s: %s' % (type(e).__name__, e)); ctx.reach(); return
     ctx.check('C12/v3/logs/no-event-in-logs', all(isinstance(e, OsLogEvent) for e in out))
     raw = logs['Events']
